@@ -49,6 +49,22 @@ package main
 // sequence, is executed (its private recipient's balance does not move), none is
 // executed twice, nobody but the wrapper's own signer pays or loses a sequence
 // number.  The Coq model refuses every wrapped submission.
+//
+// Contract creations: the messages of a multi-message transaction may be contract
+// creations (init code that deploys, that fails, a constructor that stores), at
+// every position, followed by the re-delivery of every message alone and in
+// sub-batches; a creation counts as executed when it stands in an accepted
+// transaction (cross-checked with the contract account at CreateAddress(sender,
+// nonce)); after an accepted transaction with k messages of a sender its
+// sequence is n + k (x/evm wrote m + 1 after a successful creation until /repo
+// commit f9ff121, so that the later messages of the batch could be delivered
+// again).
+//
+// Account-type operations (kind "accountops"): between submissions a third party
+// converts an existing account into a vesting account (x/vesting), grants are
+// merged, the account is converted back; then every old signed transaction of
+// the account -- Ethereum, Cosmos direct / amino, EIP-712 -- is delivered again.
+// Oracle: no sequence ever decreases; a signed transaction executes at most once.
 
 import (
 	"bytes"
